@@ -259,6 +259,11 @@ def sample_dicts(seed, n=400):
     rnd = random.Random(seed)
     out = [{}, {"code": ""}, {"code": "a"}, {"code": "ab"}, {"code": "abc"}, {"code": "ä€\U0001F600", "options": {"compact": True}},
            {"code": "x\ud83d"}, {"code": "\udc00"}]
+    # large payloads (whole programs with libraries): JSON text sizes around 2**16 and well beyond it
+    line = "db.Setting = d0.Setting + 1  # tick\n"
+    for size in (4000, 65500, 65536, 65600, 200000):
+        out.append({"code": (line * (size // len(line) + 1))[:size]})
+    out.append({"code": "# " + "温度" * 6000 + "\n", "modules": {"lib": line * 500}})
     pools = ["abc", "+/=-_", "\n\t \"\\", "é中\U0001F680", "0123456789", "a\ud83d", "\udc00b"]
     for i in range(n):
         ln = i % 97
@@ -395,7 +400,7 @@ def native_sweep(rep, seed, n):
             bad = (d, e)
             break
     ob = Ob("types.roundtrip#native_sweep", HELD if bad is None else VIOLATED, kind="bounded", backend="native",
-            bound=f"{len(ds)} dictionaries, source lengths 0..96, ASCII/Unicode/lone-surrogate pools", time_s=time.time() - t0,
+            bound=f"{len(ds)} dictionaries, source lengths 0..96 plus payloads of 4 kB .. 200 kB, ASCII/Unicode/lone-surrogate pools", time_s=time.time() - t0,
             detail={"cases": len(ds), "encoded_length_residues_mod4_seen": sorted(seen)}, target="types.encode_data;types.decode_data")
     if bad is not None:
         ob.witness, ob.replayed = {"data": bad[0]}, True
